@@ -96,31 +96,39 @@ Print Assumptions C06_raw_response_one_close.
 
 (* The serve goroutine is never blocked on the write lock ... *)
 Theorem C06_ibb_close_never_blocks_serve : forall tr s,
-  run (iw_step false) iw_init tr = Some s -> iw_v s <> VBlocked.
+  run (iw_step false false) iw_init tr = Some s -> iw_v s <> VBlocked.
 Proof. exact iw_never_blocked_run. Qed.
 Print Assumptions C06_ibb_close_never_blocks_serve.
 
 (* ... serve progress on every schedule: free, or its next step is enabled *)
 Theorem C06_ibb_close_serve_progress : forall tr s,
-  run (iw_step false) iw_init tr = Some s -> iw_serve_waits false s.
+  run (iw_step false false) iw_init tr = Some s -> iw_serve_waits false s.
 Proof. exact iw_serve_progress_run. Qed.
 Print Assumptions C06_ibb_close_serve_progress.
 
-(* ... the close request is answered whatever the writer is doing (unless an
-   earlier data packet failed: then the close handler returns that stale error
-   and Serve ends — C06_ibb_close_ends_serve_only_after_failed_packet) *)
+(* ... the close request is answered whatever the writer is doing or has suffered *)
 Theorem C06_ibb_close_completes : forall s,
-  iw_v s = VClose -> iw_broken s = false ->
-  exists s1, iw_step false s VTry = Some s1 /\
+  iw_v s = VClose ->
+  exists s1, iw_step false false s VTry = Some s1 /\
     (iw_v s1 = VIdle /\ iw_closed s1 = true \/
-     exists s2, iw_step false s1 VFlushDone = Some s2 /\ iw_v s2 = VIdle /\ iw_closed s2 = true).
+     exists s2, iw_step false false s1 VFlushDone = Some s2 /\ iw_v s2 = VIdle /\ iw_closed s2 = true).
 Proof. exact iw_close_completes. Qed.
 Print Assumptions C06_ibb_close_completes.
 
-Theorem C06_ibb_close_ends_serve_only_after_failed_packet : forall tr s,
-  run (iw_step false) iw_init tr = Some s -> iw_v s = VEnded -> iw_broken s = true.
-Proof. exact iw_ended_only_broken_run. Qed.
-Print Assumptions C06_ibb_close_ends_serve_only_after_failed_packet.
+(* ... and Serve never ends in the close handler *)
+Theorem C06_ibb_close_never_ends_serve : forall tr s,
+  run (iw_step false false) iw_init tr = Some s -> iw_v s <> VEnded.
+Proof. exact iw_never_ended_run. Qed.
+Print Assumptions C06_ibb_close_never_ends_serve.
+
+(* The pinned design let the stale error of a refused data packet escape from
+   the close handler: Serve ended, the close request was not answered
+   (repaired by 02a6c9c). *)
+Theorem C06_ibb_close_stale_error_pinned_refuted :
+  exists s, run (iw_step false true) iw_init [WStart; WSend; WAck false; VCloseArrive; VTry; VFlushDone] = Some s /\
+    iw_v s = VEnded /\ iw_closed s = false.
+Proof. exact iw_stale_error_ends_serve_pinned. Qed.
+Print Assumptions C06_ibb_close_stale_error_pinned_refuted.
 
 (* ... the writer can always go on, or waits for a reply the free serve goroutine can deliver *)
 Theorem C06_ibb_writer_progress : forall b s, iw_writer_waits b s.
@@ -128,7 +136,7 @@ Proof. exact iw_writer_progress. Qed.
 Print Assumptions C06_ibb_writer_progress.
 
 Theorem C06_ibb_overtaken_writer_is_aborted : forall s s1,
-  iw_v s = VClose -> writer_holds s = true -> iw_step false s VTry = Some s1 ->
+  iw_v s = VClose -> writer_holds s = true -> iw_step false false s VTry = Some s1 ->
   iw_aborted s1 = true /\ iw_w s1 = iw_w s.
 Proof. exact iw_aborted_after_overtaking. Qed.
 Print Assumptions C06_ibb_overtaken_writer_is_aborted.
@@ -137,8 +145,50 @@ Print Assumptions C06_ibb_overtaken_writer_is_aborted.
    blocking Lock in the close path; when the close overtakes the
    acknowledgement only the writer's own deadline gets anybody out. *)
 Theorem C06_ibb_blocking_close_refuted :
-  exists s, run (iw_step true) iw_init overtake_trace = Some s /\
+  exists s, run (iw_step true false) iw_init overtake_trace = Some s /\
     iw_w s = WWait /\ iw_v s = VBlocked /\
     forall l, iw_enabled true s l -> l = WDeadline.
 Proof. exact iw_blocking_deadlock. Qed.
 Print Assumptions C06_ibb_blocking_close_refuted.
+
+(* ====================================================================== *)
+(* IBB: the table of expected sessions (Expect / handleOpen)               *)
+(* ====================================================================== *)
+
+(* For every history of Expect calls for one session — take-overs,
+   cancellations, give-ups in any order — and open requests: the entry of an
+   Expect call that is waiting with a live context is never removed by another
+   call; it stays in the table until an open request takes it for that call. *)
+Theorem C06_ibb_expect_entry_is_kept : forall tr s i,
+  run (ex_step true) ex_init tr = Some s -> ex_live s i -> ex_tab s = Some i \/ ex_h s = OOffer i.
+Proof. exact ex_live_entry_run. Qed.
+Print Assumptions C06_ibb_expect_entry_is_kept.
+
+(* ... and an open request is delivered to it: the serve goroutine is not left
+   waiting for an Accept call *)
+Theorem C06_ibb_expect_open_is_delivered : forall tr s i,
+  run (ex_step true) ex_init tr = Some s -> ex_live s i -> ex_h s = OIdle ->
+  exists s1 s2, ex_step true s OArrive = Some s1 /\ ex_h s1 = OOffer i /\
+                ex_step true s1 (ODeliver i) = Some s2 /\ ex_h s2 = OIdle /\
+                exists c, nth_error (ex_calls s2) i = Some c /\ e_pc c = ERet EConn.
+Proof. exact ex_open_is_delivered. Qed.
+Print Assumptions C06_ibb_expect_open_is_delivered.
+
+(* a call that gives up removes its own entry *)
+Theorem C06_ibb_expect_cleanup_removes_own : forall s i c,
+  nth_error (ex_calls s) i = Some c -> e_pc c = EGiveUp -> ex_tab s = Some i ->
+  exists s', ex_step true s (ECleanup i) = Some s' /\ ex_tab s' = None.
+Proof. exact ex_cleanup_removes_own. Qed.
+Print Assumptions C06_ibb_expect_cleanup_removes_own.
+
+(* What the table lemma [ibb_expect_removes_only_its_own_entry] excludes: a
+   cleanup without the ownership test.  The cancelled first call removes the
+   entry of the second one that took over; the open request finds nobody, the
+   serve goroutine waits for an Accept call (and nothing else releases it)
+   while the second Expect is still waiting. *)
+Theorem C06_ibb_expect_no_owner_check_refuted :
+  exists s, run (ex_step false) ex_init takeover_trace = Some s /\
+    ex_live s 1 /\ ex_tab s = None /\ ex_h s = OAccept /\
+    forall l s', ex_step false s l = Some s' -> l <> AAccept -> ex_h s' = OAccept.
+Proof. exact ex_no_owner_check_loses_entry. Qed.
+Print Assumptions C06_ibb_expect_no_owner_check_refuted.
